@@ -114,6 +114,11 @@ func parseListCredential(body []byte) (id string, bits []byte, exp time.Time, er
 }
 
 func c11Body(s *simkit.Sim, rc *simkit.RunCtx) {
+	// one run in four plays the did:nuts network world (revocations as signed network documents): c11net_test.go
+	if s.D.Decide("c11 world", 4) == 3 {
+		c11NetBody(s, rc)
+		return
+	}
 	sample := &c11Sample{}
 	rc.Sample = sample
 	w := world.New(s, rc)
